@@ -7,6 +7,7 @@ import (
 	"bufio"
 	"context"
 	"database/sql"
+	"database/sql/driver"
 	"encoding/json"
 	"flag"
 	"fmt"
@@ -398,6 +399,70 @@ func txRace(r *rng, add func(violation)) {
 	dropFakeDB(w.f.name)
 }
 
+// txFault: a statement of the transaction fails in the driver (an ordinary error, driver.ErrBadConn, an
+// error that wraps it).  database/sql keeps the sql.Tx open after any of them, so the transaction is
+// still there: a later statement runs on its connection, the first Commit or Rollback reaches the
+// driver (exactly one), and only afterwards everything fails with ErrTXDone.
+func txFault(r *rng, add func(violation)) {
+	desc := fmt.Sprintf("tx fault seed-state %d", r.s)
+	viol := func(prop, name, detail string) { add(violation{prop, name, hx(desc), detail}) }
+	w := newTxWorld(r, viol)
+	defer func() { w.db.PlainDB().Close(); dropFakeDB(w.f.name) }()
+	fault := []error{fmt.Errorf("injected-7"), driver.ErrBadConn, fmt.Errorf("wrapped: %w", driver.ErrBadConn)}[r.intn(3)]
+	nbefore := r.intn(3)
+	for i := 0; i < nbefore; i++ {
+		w.tx.Query(context.Background(), txStmts[r.intn(3)], Person{ID: 10 + i, Name: "a"}).Run()
+	}
+	w.f.mu.Lock()
+	w.f.failKinds = map[string]bool{"exec": true, "query": true}
+	w.f.failAt = map[int]error{w.f.calls + 1: fault}
+	w.f.mu.Unlock()
+	kind := r.intn(3)
+	err := w.tx.Query(context.Background(), txStmts[kind], Person{ID: 666, Name: "f"}).Run()
+	w.f.mu.Lock()
+	w.f.failKinds = nil
+	w.f.failAt = map[int]error{}
+	w.f.mu.Unlock()
+	if err == nil {
+		return // the fault did not reach this statement (nothing to check)
+	}
+	w.pos = len(w.f.log())
+	if r.chance(1, 2) {
+		if e := w.tx.Query(context.Background(), txStmts[0], Person{ID: 5, Name: "after"}).Run(); e != nil {
+			viol("C12", "statement-after-a-failed-statement-refused", fmt.Sprintf("after %v: %v", fault, e))
+		}
+	}
+	commit := r.chance(1, 2)
+	var ferr error
+	if commit {
+		ferr = w.tx.Commit()
+	} else {
+		ferr = w.tx.Rollback()
+	}
+	finishes := 0
+	for _, ev := range w.f.log()[w.pos:] {
+		switch ev.Kind {
+		case "commit", "rollback":
+			finishes++
+			if ev.Conn != w.conn {
+				viol("C12", "finish-on-other-connection", ev.Kind)
+			}
+		case "exec", "query":
+			if ev.Conn != w.conn {
+				viol("C12", "tx-statement-on-other-connection", ev.SQL)
+			}
+		}
+	}
+	if finishes != 1 || ferr != nil {
+		viol("C12", "not-exactly-one-finisher", fmt.Sprintf("after a statement failed with %q: %d finish events at the driver, the first finisher returned %v", fault, finishes, ferr))
+	}
+	before := len(w.f.log())
+	e1, e2 := w.tx.Commit(), w.tx.Rollback()
+	if txErrClass(e1) != "txdone" || txErrClass(e2) != "txdone" || len(w.f.log()) != before {
+		viol("C12", "operation-after-end-did-not-fail-with-ErrTXDone", fmt.Sprint(e1, e2))
+	}
+}
+
 type txStats struct {
 	Later      int            `json:"scripts_with_a_later_transaction_open_after_the_finish"`
 	Cases      int            `json:"cases"`
@@ -470,6 +535,7 @@ func cmdTx(args []string) int {
 	}
 	for i := 0; i < *races; i++ {
 		txRace(r.fork(), addViol)
+		txFault(r.fork(), addViol)
 		st.Races++
 	}
 	cw.Flush()
